@@ -343,7 +343,8 @@ struct C46 : vf::Engine {
                 if (op.kind == "step") stepTask((int)op.num("k", 0) % nt, (int)std::max(1L, op.num("n", 1)));
                 else if (op.kind == "create") create((int)op.num("k", 0) % nt);
                 else if (op.kind == "restart") { int k = (int)op.num("k", 0) % nt; if (S.tasks[k] && S.tasks[k]->done >= 1 && !S.faulted.count(k)) { compare(k);
-                        try { S.tasks[k]->restart(); res.count("probe_same_objects_reused_for_a_second_run"); } catch (const std::exception& e) { if (refOk[k]) res.fail("task-fails-only-when-interleaved", "restart", std::string("task ") + std::to_string(k) + " ran alone but could not be initialized again on the same objects: " + e.what()); } } }
+                        try { S.tasks[k]->restart(); res.count("probe_same_objects_reused_for_a_second_run"); } catch (const std::exception& e) { if (S.faulted.count(k)) { S.tasks[k].reset(); ++destroyedMid; res.count("fault_task_destroyed_mid_step"); }     /* the injected callback failure hit the re-initialization: the task is abandoned */
+                            else if (refOk[k]) res.fail("task-fails-only-when-interleaved", "restart", std::string("task ") + std::to_string(k) + " ran alone but could not be initialized again on the same objects: " + e.what()); } } }
                 else if (op.kind == "destroy") { int k = (int)op.num("k", 0) % nt; if (S.tasks[k]) { compare(k); bool mid = S.tasks[k]->done < S.recipes[k].nsteps; S.tasks[k].reset(); if (mid) res.count("probe_task_destroyed_while_others_continue"); } }
                 else if (op.kind == "noise") { S.enabled = false; uint64_t g = noise((int)op.num("kind", 0), (uint64_t)op.num("seed", 1)); S.enabled = true; S.checkNoise((int)op.num("kind", 0), (uint64_t)op.num("seed", 1), g, "interleaved between simulation steps"); res.count("noise_calls"); }
                 else if (op.kind == "alloc") { int n = (int)op.num("n", 1); size_t sz = (size_t)std::max(1L, op.num("size", 64)); if (junk.size() > 200) junk.erase(junk.begin(), junk.begin() + 100); for (int i = 0; i < n; ++i) { junk.emplace_back(new char[sz]); std::memset(junk.back().get(), 0x5a + i, sz); } }
